@@ -16,13 +16,9 @@ structure S where
 
 def init : S := {}
 
-/-- 64 lowercase hex digits of a 256-bit number -/
-def hex64 (k : Nat) : String :=
-  String.ofList ((List.range 64).map fun i => Nat.digitChar (k / 16 ^ (63 - i) % 16))
-
 def showDisk (d : Disk) : String :=
   if d.isEmpty then "disk=-"
-  else "disk=" ++ String.intercalate "," (d.map fun e => "/batches/" ++ hex64 e.1 ++ ":" ++ Bytes.toHexTok (valueOf e.2))
+  else "disk=" ++ String.intercalate "," (d.map fun e => renderKey e.1 ++ ":" ++ Bytes.toHexTok (valueOf e.2))
 
 def showOut : Out → String
   | .ok => "ok"
